@@ -385,6 +385,14 @@ func runC16(c *Check) {
 									}
 								}
 							}
+							// the count handed back in a field of a result bundle
+							if _, isField := v.(*ssa.Field); isField || func() bool { u, ok := v.(*ssa.UnOp); return ok && u.Op == token.MUL }() {
+								for _, leaf := range flattenPhi(TermOf(v, n.Ctx)) {
+									if lv := leaf.unconv().V; lv != nil && (lv == ssa.Value(counter) || (cphi != nil && lv == ssa.Value(cphi))) {
+										return true
+									}
+								}
+							}
 							return false
 						}
 						k, isK := b.Y.(*ssa.Const)
